@@ -10,6 +10,7 @@ import (
 	"github.com/hneemann/parser2/listMap"
 	"math"
 	"sort"
+	"sync/atomic"
 )
 
 // NewListConvert creates a list containing the given elements if the elements
@@ -371,6 +372,19 @@ func panicTransport(p iterator.Producer[Value]) iterator.Producer[Value] {
 	}
 }
 
+// stoppableProducer wraps a producer which is run in a goroutine of its own.
+// The production ends as soon as the given flag is set.
+func stoppableProducer(p iterator.Producer[Value], stopped *atomic.Bool) iterator.Producer[Value] {
+	return func(yield iterator.Consumer[Value]) {
+		p(func(v Value, err error) bool {
+			if stopped.Load() {
+				return false
+			}
+			return yield(v, err)
+		})
+	}
+}
+
 // recoveringProducer wraps a producer which is run in a goroutine of its own
 // (see iterator.ToChan). A panic raised while producing is sent to the
 // consumer as an error.
@@ -456,21 +470,35 @@ func (l *List) Merge(sta funcGen.Stack[Value]) (*List, error) {
 	}
 	if otherList, ok := other.ToList(); ok {
 		return NewListFromIterable(func(st funcGen.Stack[Value]) iterator.Producer[Value] {
-			// both sources are evaluated in their own goroutines, so they get their own stacks
-			return iterator.Merge(recoveringProducer(l.iterable(st.Derive())), recoveringProducer(otherList.iterable(st.Derive())),
-				func(a, b Value) (bool, error) {
-					st.Push(a)
-					st.Push(b)
-					value, err2 := f.Func(st.CreateFrame(2), nil)
-					if err2 != nil {
-						return false, err2
+			return func(yield iterator.Consumer[Value]) {
+				// The goroutines evaluating the sources do not terminate if the consumer
+				// stops early (iterator.ToChan keeps iterating the source up to its end),
+				// so they are stopped by this flag.
+				stopped := &atomic.Bool{}
+				defer stopped.Store(true)
+				// both sources are evaluated in their own goroutines, so they get their own stacks
+				merged := iterator.Merge(recoveringProducer(stoppableProducer(l.iterable(st.Derive()), stopped)), recoveringProducer(stoppableProducer(otherList.iterable(st.Derive()), stopped)),
+					func(a, b Value) (bool, error) {
+						st.Push(a)
+						st.Push(b)
+						value, err2 := f.Func(st.CreateFrame(2), nil)
+						if err2 != nil {
+							return false, err2
+						}
+						if less, ok := value.(Bool); ok {
+							return bool(less), nil
+						} else {
+							return false, errors.New("function in merge needs to return a bool, (a<b)")
+						}
+					})
+				merged(func(v Value, err error) bool {
+					if !yield(v, err) {
+						stopped.Store(true)
+						return false
 					}
-					if less, ok := value.(Bool); ok {
-						return bool(less), nil
-					} else {
-						return false, errors.New("function in merge needs to return a bool, (a<b)")
-					}
+					return true
 				})
+			}
 		}), nil
 	} else {
 		return nil, errors.New("first argument in merge needs to be a list")
